@@ -241,3 +241,20 @@ Definition multi_redfa (nd : anode) (prev next : neigh) (lib : list amp) (groups
 (* find_type_variety: the chosen single-band entries must belong to one multiband model of the library *)
 Definition common_groups (groups : list mgroup) (chosen : list string) : list string :=
   map g_name (filter (fun g => forallb (fun t => smem t (g_members g)) chosen) groups).
+
+(* smallest margin met by the preselection filters *)
+Fixpoint presel_crit (lib : list amp) (groups : list mgroup) (ext : Q) (restr0 sel : list string)
+                     (bts : list (Q * Q * Q * Q)) : Q :=
+  match bts with
+  | [] => 1
+  | (bmin, bmax, gain, pt) :: rest =>
+      let cands := band_cands lib groups sel bmin bmax in
+      Qmin (select_crit true gain pt ext cands)
+           (match acc_gain true gain cands with
+            | Ok acc => presel_crit lib groups ext restr0
+                          (filter (fun m => smem m (flat_map (groups_of groups) (map a_name (acc_power ext gain pt acc))))
+                                  restr0) rest
+            | Err _ => 1
+            end)
+  end.
+
